@@ -652,11 +652,11 @@ fn exec_worker_det(case: &Sx, out_fail: &mut Vec<String>) -> Sx {
             }
             1 => {
                 if let Some(hd) = handles.last() {
-                    let ok = rt.block_on(async { tokio::time::timeout(Duration::from_secs(5), hd.flush()).await.is_ok() });
+                    let ok = rt.block_on(async { tokio::time::timeout(Duration::from_secs(10), hd.flush()).await.is_ok() });
                     if ok {
                         acks += 1;
                     } else {
-                        out_fail.push("flush() was not acknowledged within 5 s".to_string());
+                        out_fail.push("flush() was not acknowledged within 10 s".to_string());
                     }
                 }
             }
@@ -695,12 +695,12 @@ fn exec_worker_det(case: &Sx, out_fail: &mut Vec<String>) -> Sx {
         drop(g.take());
     }
     drop(handles);
-    let exited = match await_exit(&shared, Duration::from_secs(2)) {
+    let exited = match await_exit(&shared, Duration::from_secs(10)) {
         Ok(()) => true,
         Err(spins) => {
             WORKER_BROKEN.store(true, Ordering::SeqCst);
             out_fail.push(format!(
-                "worker thread still running 2 s after its last handle was dropped (inner sink never dropped; {} flush calls in the following 20 ms, {} in total)",
+                "worker thread still running 10 s after its last handle was dropped (inner sink never dropped; {} flush calls in the following 20 ms, {} in total)",
                 spins,
                 shared.flushes.load(Ordering::SeqCst)
             ));
@@ -741,9 +741,9 @@ fn exec_worker_thr(case: &Sx, out_fail: &mut Vec<String>) -> Sx {
                 match a.tag() {
                     0 => hd.send(to_item(&dec_entry(a.arg(0))).close()),
                     1 => {
-                        let ok = rt.block_on(async { tokio::time::timeout(Duration::from_secs(5), hd.flush()).await.is_ok() });
+                        let ok = rt.block_on(async { tokio::time::timeout(Duration::from_secs(10), hd.flush()).await.is_ok() });
                         if !ok {
-                            problems.push("flush() was not acknowledged within 5 s".to_string());
+                            problems.push("flush() was not acknowledged within 10 s".to_string());
                         }
                         snaps.push(sx::n(shared.trace.lock().unwrap().len() as u64));
                     }
@@ -783,12 +783,12 @@ fn exec_worker_thr(case: &Sx, out_fail: &mut Vec<String>) -> Sx {
             }
         }
     }
-    let exited = match await_exit(&shared, Duration::from_secs(2)) {
+    let exited = match await_exit(&shared, Duration::from_secs(10)) {
         Ok(()) => true,
         Err(spins) => {
             WORKER_BROKEN.store(true, Ordering::SeqCst);
             out_fail.push(format!(
-                "worker thread still running 2 s after its last handle was dropped (inner sink never dropped; {} flush calls in the following 20 ms)",
+                "worker thread still running 10 s after its last handle was dropped (inner sink never dropped; {} flush calls in the following 20 ms)",
                 spins
             ));
             false
